@@ -1,6 +1,6 @@
 (** C40/Model.v — transcription of the JSON-schema -> EmmyLua annotation converter
     (crates/schema_to_emmylua/src/{lua_emitter.rs, converter.rs, schema_walker.rs, markdown_doc.rs}, after the
-    repairs cc371ed and 1b79eec), of the pieces of the EmmyLua doc lexer that read what it emits
+    repairs cc371ed, 1b79eec and 59e827c), of the pieces of the EmmyLua doc lexer that read what it emits
     (crates/emmylua_parser/src/lexer/lua_doc_lexer.rs: the string branch of [lex_normal], [read_doc_name]) and of the
     string decoder (syntax/node/token/string_analyzer.rs, [normal_string_value]).
     Executable definitions only.
@@ -93,20 +93,53 @@ Definition str_split (d : cp) (s : text) : list text := split_aux d s [].
 Definition clean_piece (p : text) : text :=
   List.map (fun c => if is_control c && negb (c =? TAB) then SP else c) p.
 
-(** [if cleaned.trim_start_matches([' ', '\t']).starts_with('@') { cleaned.insert(cleaned.find('@'), '\\') }] *)
-Fixpoint escape_at (s : text) : text :=
+Definition is_blank (c : cp) : bool := (c =? SP) || (c =? TAB).
+Definition blank_line (s : text) : bool := forallb is_blank s.
+
+(** [str::strip_prefix] *)
+Fixpoint strip_prefix (p s : text) : option text :=
+  match p, s with
+  | [], _ => Some s
+  | x :: p', y :: s' => if x =? y then strip_prefix p' s' else None
+  | _ :: _, [] => None
+  end.
+
+(** the characters  < [ : & | + - ? .  and the two quote characters *)
+Definition continuation_chars : list cp := [60; 91; 58; 38; 124; 43; 45; 63; 46; 34; 39].
+
+Definition keyword_start (kw rest : text) : bool :=
+  match strip_prefix kw rest with
+  | Some after => negb (match after with c :: _ => ascii_alnum c || (c =? USC) | [] => false end)
+  | None => false
+  end.
+
+(** [continues_tag] *)
+Definition continues_tag (rest : text) : bool :=
+  match rest with c :: _ => existsb (N.eqb c) continuation_chars | [] => false end
+  || keyword_start (T "in") rest || keyword_start (T "extends") rest.
+
+(** the escape of one cleaned line in [doc_comment_lines]: [rest] is the line without its leading blanks;
+    [if rest.starts_with('@') || (guard && continues_tag(rest)) { cleaned.insert(start, '\\') }] *)
+Fixpoint escape_start (guard : bool) (s : text) : text :=
   match s with
   | [] => []
-  | c :: r => if (c =? SP) || (c =? TAB) then c :: escape_at r
-              else if c =? AT then BSL :: s else s
+  | c :: r => if is_blank c then c :: escape_start guard r
+              else if (c =? AT) || (guard && continues_tag s) then BSL :: s else s
+  end.
+
+(** the loop of [doc_comment_lines] over the cleaned pieces: [guard] stays on over blank lines *)
+Fixpoint guard_lines (guard : bool) (ps : list text) : list text :=
+  match ps with
+  | [] => []
+  | p :: r => escape_start guard p :: guard_lines (guard && blank_line p) r
   end.
 
 (** [doc_comment_lines] *)
-Definition doc_comment_lines (t : text) : list text :=
-  flat_map (fun l => List.map (fun p => escape_at (clean_piece p)) (str_split CR l)) (str_lines t).
+Definition doc_comment_lines (after_tag : bool) (t : text) : list text :=
+  guard_lines after_tag (List.map clean_piece (flat_map (str_split CR) (str_lines t))).
 
 (** [single_line] *)
-Definition single_line (t : text) : text := join [SP] (doc_comment_lines t).
+Definition single_line (t : text) : text := join [SP] (doc_comment_lines false t).
 
 Definition modifiers : list text := [T "private"; T "protected"; T "public"; T "package"; T "readonly"].
 
@@ -251,10 +284,14 @@ Definition file_flag (write_file : bool) : text := if write_file then T "(file)"
 
 (** [write_doc_comment] *)
 Definition write_doc_comment (t : text) : list text :=
-  List.map (fun l => T "--- " ++ l) (doc_comment_lines t).
+  List.map (fun l => T "--- " ++ l) (doc_comment_lines false t).
+
+(** [write_field_comment]: the description block of a field directly follows a tag line *)
+Definition write_field_comment (t : text) : list text :=
+  List.map (fun l => T "--- " ++ l) (doc_comment_lines true t).
 
 Definition opt_doc (d : option text) : list text :=
-  match d with Some t => write_doc_comment t | None => [] end.
+  match d with Some t => write_field_comment t | None => [] end.
 
 (** [write_class] *)
 Definition write_class (wf : bool) (name : text) : list text := [T "---@class" ++ file_flag wf ++ [SP] ++ name].
